@@ -119,12 +119,26 @@ def space(tier, seed):
             for ss in S.session_subsets(pool3, 3, 3):
                 for c in ("alt3-k2-h", "unc-k1-rc-h", "fcfs-kN-rc-h") if netname != "N3" else ("alt3-k2-h", "max1-k3"):
                     items.append({"net": netname, "sessions": ss, "cfg": c, "pairs": False})
+    # ---- a two-level finite-rate EVSE (off / 16 A) under the sorted algorithm and scripts
+    for a, sy, kd in itertools.product((0, 1), (2, 3), ("big", "small")):
+        for other in (None, ("PS-A", 0, 3, "big"), ("PS-C", 1, 2, "l2c")):
+            ss = [dict(sess("PS-B", a, sy, kd, 0), sid="ev0")] + ([dict(sess(*other, 1), sid="ev1")] if other else [])
+            for c in ("fcfs-k1", "fcfs-kN-rc-h", "unc-k1-rc-h"):
+                items.append({"net": "N13", "sessions": ss, "cfg": c, "pairs": False})
+    # ---- the same vehicle twice: two sessions built around ONE Battery object (the second continues where the first stopped)
+    for st2, a2 in (("PS-A", 3), ("PS-A", 4), ("PS-C", 2)):
+        # two-stage battery in its ramp-down region: what the second visit draws depends on what the first one stored
+        ss = [dict(sess("PS-A", 0, 3, "l2c", 0), sid="ev0"), dict(sess(st2, a2, 2, "l2c", 1), sid="ev1", batt_of="ev0")]
+        for c in sorted(CFGS):
+            items.append({"net": "N2", "sessions": ss, "cfg": c, "pairs": False})
     return items
 
 
 def scenario(item):
     sched, k, rc, hist = CFGS[item["cfg"]]
     scn = {"net": item["net"], "sessions": item["sessions"], "sched": sched, "k": k, "recompute": rc, "period": 5}
+    # pending recompute requests carry a user-chosen precedence (still after plug-ins): a dump must carry it
+    scn["rc_prec"] = 27
     # stations are registered (and constraints inserted) in a non-alphabetical order: a dump/load that
     # re-orders the station map (but not the parallel arrays) must be visible
     scn["order"] = ["PS-C", "PS-A", "PS-B"]
@@ -157,7 +171,7 @@ def pad_equal(a, b):
 def snapshot(sim):
     """the complete simulator state the property says a dump must carry (canonical, identity-free)"""
     net = sim.network
-    q = [(ts, e.event_type, getattr(getattr(e, "ev", None), "session_id", None)) for ts, e in sim.event_queue._queue]
+    q = [(ts, e.event_type, e.precedence, getattr(getattr(e, "ev", None), "session_id", None)) for ts, e in sim.event_queue._queue]
     evses = {}
     for sid in net.station_ids:
         e = net._EVSEs[sid]
@@ -199,6 +213,11 @@ def snapshot(sim):
         "cm": None if net.constraint_matrix is None else np.asarray(net.constraint_matrix).tolist(),
         "mag": np.asarray(net.magnitudes).tolist(),
         "cidx": list(net.constraint_index),
+        # what the network advertises about its stations (cached description used by Interface and the algorithms)
+        "advertised": [
+            (sid, float(net.max_pilot_signals[i]), float(net.min_pilot_signals[i]), [float(x) for x in net.allowable_rates[i]], bool(net.is_continuous[i]))
+            for i, sid in enumerate(net.station_ids)
+        ],
         "volt": np.asarray(net._voltages).tolist(),
         "phase": np.asarray(net._phase_angles).tolist(),
         "ev_history": {k: (float(v.energy_delivered), float(v._battery._current_charge)) for k, v in sim.ev_history.items()},
